@@ -472,7 +472,7 @@ func (c *Cholesky) Scale(f float64, orig *Cholesky) {
 		panic("cholesky: scaling by a non-positive constant")
 	}
 	n := orig.SymmetricDim()
-	if c.chol == nil {
+	if c.IsEmpty() {
 		c.chol = NewTriDense(n, Upper, nil)
 	} else if c.chol.mat.N != n {
 		panic(ErrShape)
@@ -572,7 +572,7 @@ func (c *Cholesky) SymRankOne(orig *Cholesky, alpha float64, x Vector) (ok bool)
 		panic(ErrShape)
 	}
 	if orig != c {
-		if c.chol == nil {
+		if c.IsEmpty() {
 			c.chol = NewTriDense(n, Upper, nil)
 		} else if c.chol.mat.N != n {
 			panic(ErrShape)
